@@ -96,27 +96,15 @@ def shrink_candidates(plan):
         del p["skip"][i]
         yield p
     spec = plan["spec"]
-    used = set()
-    for it in spec:
-        for r in list(it.get("inputs", [])) + list(it.get("kw", {}).values()) + ([it["input"]] if "input" in it else []) + ([it["at"]] if "at" in it else []) + (list(it["dist"]["args"].values()) if it.get("dist") else []):
-            if "i" in r:
-                used.add(r["i"])
     for i in range(len(spec) - 1, -1, -1):
-        if i in used:
+        names = M.item_names(spec[i])
+        if any(op[1] in names for op in plan["pre"]) or any(s_ in names for s_ in plan["skip"]):
             continue
-        names = {spec[i]["name"], f"{spec[i]['name']}_value", f"{spec[i]['name']}_log_prob", f"{spec[i]['name']}_var_value"}
-        if any(op[1] in names for op in plan["pre"]) or any(s in names for s in plan["skip"]):
+        new = M.drop_item(spec, i)
+        if new is None:
             continue
         p = copy.deepcopy(plan)
-        del p["spec"][i]
-        for it in p["spec"]:
-            for r in list(it.get("inputs", [])) + list(it.get("kw", {}).values()) + ([it["input"]] if "input" in it else []) + ([it["at"]] if "at" in it else []) + (list(it["dist"]["args"].values()) if it.get("dist") else []):
-                if "i" in r and r["i"] > i:
-                    r["i"] -= 1
-            if it.get("tight"):
-                for k in ("parent", "mid"):
-                    if it["tight"][k] > i:
-                        it["tight"][k] -= 1
+        p["spec"] = new
         yield p
 
 
